@@ -603,6 +603,427 @@ def output_inplace(ctx, rng, deep=False):
                   f"_NgdInterpTerms (forward, then `{edit}`, then backward)", payload, run, ref, rtol=1e-7 * cond, atol=1e-8 * cond)
 
 
+# ------------------------------------------------------------------------------------------- round 4: call forms, pairs, layouts
+
+def _dense_call(fam, nu2, X1, X2, ls, osc, ldb, diag):
+    """documented value of kernel(x1, x2, last_dim_is_batch=ldb, diag=diag) for lengthscales ls (…,1,d|1) and
+    outputscales osc (…) — plain differences, differentiable in ls / osc"""
+    import torch
+    diff = (X1.unsqueeze(-2) - X2.unsqueeze(-3)) / ls.unsqueeze(-2)            # (…, n, m, d)
+    r2 = (diff ** 2).movedim(-1, -3) if ldb else (diff ** 2).sum(-1)          # (…, d, n, m) | (…, n, m)
+    if fam == "rbf":
+        k = torch.exp(-0.5 * r2)
+    else:
+        r = torch.where(r2 > 0, torch.sqrt(torch.where(r2 > 0, r2, torch.ones_like(r2))), torch.zeros_like(r2))
+        sq = math.sqrt(nu2) * r
+        k = {1: 1.0, 3: 1 + sq, 5: 1 + sq + sq * sq / 3}[nu2] * torch.exp(-sq)
+    if osc is not None:
+        o = osc.reshape(*osc.shape, 1, 1)
+        k = (o.unsqueeze(-1) if ldb else o) * k
+    return k.diagonal(dim1=-1, dim2=-2) if diag else k
+
+
+def public_call_forms(ctx, rng, deep=False):
+    """Every fast path through every PUBLIC call form that can reach it: kernel family × ScaleKernel × kernel
+    batch_shape × ARD × `last_dim_is_batch` × `diag` × x2 given / omitted × inputs batched / broadcast, with forced
+    coincidences of sizes (b == d, b == n, d == n).  The gradient of EVERY parameter (raw lengthscale, raw outputscale)
+    and the value are compared with the dense closed form (autograd of the plain-difference formula)."""
+    import itertools
+    import numpy as np
+    import torch
+    import gpytorch.kernels as GK
+    cells = list(itertools.product((("rbf", None), ("matern", 1), ("matern", 3), ("matern", 5)), (None, 2, 3),
+                                   (False, True), (False, True), (False, True), (False, True), (False, True), (False, True)))
+    if ctx.quick and not deep:
+        # all last_dim_is_batch cells with a kernel batch (the coincidence-prone family) + a sample of the rest
+        must = [c for c in cells if c[1] and c[4] and not c[5]]
+        rest = [c for c in cells if c not in must]
+        cells = rng.sample(must, 48) + rng.sample(rest, 72)
+    for (fam, nu2), batch, ard, scale, ldb, diag, same, xb in cells:
+        coincide = rng.choice(["b==d", "b==n", "d==n", "none"])
+        b = batch or 1
+        d = b if (coincide == "b==d" and batch) else rng.choice([x for x in (2, 3, 4) if x != b])
+        n = b if (coincide == "b==n" and batch) else (d if coincide == "d==n" else rng.choice([x for x in (2, 3, 4, 5) if x not in (b, d)]))
+        m = n if (same or diag) else rng.choice([x for x in (2, 3, 4, 5) if x != n])
+        bs = torch.Size([batch]) if batch else torch.Size([])
+        xs = bs if xb else torch.Size([])
+        name = "RBFKernel" if fam == "rbf" else f"MaternKernel(nu={nu2 / 2})"
+        ls = [[K5.logu(rng, 0.4, 2.5) for _ in range(d if ard else 1)] for _ in range(b)]
+        osc = [K5.logu(rng, 0.3, 3.0) for _ in range(b)]
+        x1 = [K5.rand_x(rng, n, d) for _ in range(b if xb and batch else 1)]
+        x2 = x1 if same else [K5.rand_x(rng, m, d) for _ in range(b if xb and batch else 1)]
+        kw = dict(batch_shape=bs, ard_num_dims=d if ard else None)
+        base = (GK.RBFKernel(**kw) if fam == "rbf" else GK.MaternKernel(nu=nu2 / 2.0, **kw)).double()
+        base.lengthscale = _t(ls).reshape(*bs, 1, d if ard else 1)
+        k = base
+        if scale:
+            k = GK.ScaleKernel(base, batch_shape=bs).double()
+            k.outputscale = _t(osc).reshape(bs) if batch else _t(osc[0])
+        X1 = _t(x1).reshape(*xs, n, d)
+        X2 = X1 if same else _t(x2).reshape(*xs, m, d)
+        form = f"kernel(x1{'' if same else ', x2'}{', last_dim_is_batch=True' if ldb else ''}{', diag=True' if diag else ''})"
+        payload = {"kernel": name, "scale_kernel": scale, "kernel_batch": batch, "ard": ard, "call": form, "inputs_batched": xb,
+                   "n": n, "m": m, "d": d, "coincidence": coincide, "lengthscale": ls, "outputscale": osc if scale else None,
+                   "x1": x1, "x2": None if same else x2}
+        ctx.case({"callform": payload}, sample={"function": name, "call": form, "kernel_batch": batch, "ard": ard, "d": d, "n": n,
+                                                 "coincidence": coincide})
+        ctx.count("call_forms" + ("_last_dim_is_batch" if ldb else "") + ("_diag" if diag else ""))
+        params = [base.raw_lengthscale] + ([k.raw_outputscale] if scale else [])
+        try:
+            with warnings.catch_warnings():
+                warnings.simplefilter("ignore")
+                out = k(X1, last_dim_is_batch=ldb, diag=diag) if same else k(X1, X2, last_dim_is_batch=ldb, diag=diag)
+                out = out if torch.is_tensor(out) else out.to_dense()
+                go = _t(np.array([rng.gauss(0, 1) for _ in range(out.numel())]).reshape(out.shape).tolist())
+                payload["grad_output"] = go.tolist()
+                if out.requires_grad:
+                    g = torch.autograd.grad(out, params, grad_outputs=go, allow_unused=True)
+                else:
+                    g = [None] * len(params)
+                g = [torch.zeros_like(p_) if g_ is None else g_ for g_, p_ in zip(g, params)]
+        except Exception as e:
+            ctx.fail(f"{name}/public-call-form/raises", f"{name} {form} (kernel batch {batch}, n={n}, m={m}, d={d}, ard={ard}) raises "
+                     f"{type(e).__name__}: {str(e)[:200]}", payload)
+            continue
+        raws = [p_.detach().clone().requires_grad_(True) for p_ in params]
+        ref = _dense_call(fam, nu2, X1, X2, torch.nn.functional.softplus(raws[0]),
+                          torch.nn.functional.softplus(raws[1]) if scale else None, ldb, diag)
+        if tuple(ref.shape) != tuple(out.shape):
+            try:
+                ref = ref.expand(out.shape)
+            except RuntimeError:
+                ctx.fail(f"{name}/public-call-form/shape", f"{name} {form}: result shape {tuple(out.shape)}, documented "
+                         f"{tuple(ref.shape)}", payload)
+                continue
+        gr = torch.autograd.grad(ref, raws, grad_outputs=go, allow_unused=True)
+        gr = [torch.zeros_like(p_) if g_ is None else g_ for g_, p_ in zip(gr, raws)]
+        vt = 1e-8 if fam == "rbf" else 1e-6
+        if not np.allclose(out.detach().numpy(), ref.detach().numpy(), rtol=1e-8, atol=vt):
+            ctx.fail(f"{name}/public-call-form/value", f"{name} {form}: value differs from the documented formula by "
+                     f"{(out.detach() - ref.detach()).abs().max().item():.3e}", payload)
+        for pn, a, r_ in zip(["raw_lengthscale", "raw_outputscale"], g, gr):
+            sc = max(1.0, float(r_.abs().max()))
+            if not np.allclose(a.numpy(), r_.numpy(), rtol=1e-6, atol=1e-7 * sc):
+                ctx.fail(f"{name}/public-call-form/d-{pn}" + ("/last_dim_is_batch" if ldb else "") + ("/diag" if diag else ""),
+                         f"{name} {form}, kernel batch {batch}, n={n}, m={m}, d={d}, ard={ard}: d/d{pn} is {a.reshape(-1).tolist()}, "
+                         f"the closed form gives {r_.reshape(-1).tolist()}", payload)
+                break
+
+
+_STRATEGIES = ["VariationalStrategy", "UnwhitenedVariationalStrategy", "CiqVariationalStrategy"]
+_DISTRIBUTIONS = ["CholeskyVariationalDistribution", "MeanFieldVariationalDistribution", "DeltaVariationalDistribution",
+                  "NaturalVariationalDistribution", "TrilNaturalVariationalDistribution"]
+
+
+def strategy_distribution_pairs(ctx, rng, deep=False):
+    """Every (variational strategy × variational distribution) pair that constructs: the gradient each variational
+    parameter receives from a loss Σw·mean + Σv·variance + c·KL must be the one its documented parameterisation
+    prescribes, or the pair must be rejected.  The loss is treated as a black box L(μ, Σ) of q(u) and differentiated by
+    central differences IN THE EXPECTATION PARAMETERS (η₁, η₂) = (μ, Σ + μμᵀ) (forward passes only):
+      natural_vec.grad = ∂L/∂η₁;  natural_mat.grad = ∂L/∂η₂;  natural_tril_mat.grad = Φ(−2·LᵀGL)·T, G = ∂L/∂η₂, L = T⁻¹
+      (the tangent proved in `tril_backward_tangent`);  ordinary parameters: central differences in the parameter itself.
+    Where the forward does not compute the KL (CIQ's natural-gradient route returns 0) the closed form
+    ½(−log det Σ + tr Σ + μᵀμ − n) of the whitened prior stands for it."""
+    import numpy as np
+    import torch
+    import gpytorch
+    from gpytorch import variational as V
+    reps = (1 if ctx.quick else 4) * (2 if deep else 1)
+
+    def phi(A):
+        return torch.tril(A, -1) + torch.diag(A.diagonal() * 0.5)
+    for rep in range(reps):
+        n = rng.choice([2, 3])
+        dd = rng.choice([1, 2])
+        Z = _t(K5.rand_x(rng, n, dd))
+        X = _t(K5.rand_x(rng, rng.choice([x for x in (3, 4, 5) if x != n]), dd))
+        w = _t([rng.gauss(0, 1) for _ in range(X.shape[0])])
+        v = _t([rng.gauss(0, 1) for _ in range(X.shape[0])])
+        c = rng.uniform(0.3, 1.5)
+        Sig, mu = _rand_spd(rng, n), _t([rng.gauss(0, 1) for _ in range(n)])
+        signs = [rng.choice([-1.0, 1.0]) for _ in range(n)]
+        for sname in _STRATEGIES:
+            for dname in _DISTRIBUTIONS:
+                payload = {"strategy": sname, "distribution": dname, "Z": Z.tolist(), "X": X.tolist(), "w": w.tolist(), "v": v.tolist(),
+                           "c": c, "mu": mu.tolist(), "Sigma": Sig.tolist(), "tril_diagonal_signs": signs}
+                ctx.case({"pair": payload}, sample={"function": f"{sname} × {dname}", "n": n})
+                try:
+                    class M(gpytorch.models.ApproximateGP):
+                        def __init__(self):
+                            strat = getattr(V, sname)(self, Z.clone(), getattr(V, dname)(n), learn_inducing_locations=False)
+                            super().__init__(strat)
+                            self.mean_module = gpytorch.means.ConstantMean()
+                            self.covar_module = gpytorch.kernels.ScaleKernel(gpytorch.kernels.RBFKernel())
+
+                        def forward(self, x):
+                            return gpytorch.distributions.MultivariateNormal(self.mean_module(x), self.covar_module(x))
+                    model = M().double()
+                except Exception:
+                    ctx.count("pair_rejected_at_construction")
+                    continue
+                model.covar_module.base_kernel.lengthscale = 0.9
+                model.covar_module.outputscale = 1.3
+                vs = model.variational_strategy
+                vs.variational_params_initialized.fill_(1)
+                dist = vs._variational_distribution
+                Dg = _t(signs)
+
+                def set_params(mu_, Sig_):
+                    with torch.no_grad():
+                        if dname == "CholeskyVariationalDistribution":
+                            dist.variational_mean.copy_(mu_)
+                            dist.chol_variational_covar.copy_(torch.linalg.cholesky(Sig_))
+                        elif dname == "MeanFieldVariationalDistribution":
+                            dist.variational_mean.copy_(mu_)
+                            dist._variational_stddev.copy_(Sig_.diagonal().sqrt())
+                        elif dname == "DeltaVariationalDistribution":
+                            dist.variational_mean.copy_(mu_)
+                        else:
+                            P = torch.linalg.inv(Sig_)
+                            P = 0.5 * (P + P.T)
+                            dist.natural_vec.copy_(P @ mu_)
+                            if dname == "NaturalVariationalDistribution":
+                                dist.natural_mat.copy_(-0.5 * P)
+                            else:
+                                dist.natural_tril_mat.copy_(torch.tril(Dg.unsqueeze(-1) * torch.linalg.inv(torch.linalg.cholesky(Sig_))))
+
+                def loss():
+                    model.train()
+                    if hasattr(vs, "_clear_cache"):
+                        vs._clear_cache()
+                    with gpytorch.settings.cg_tolerance(1e-13), gpytorch.settings.eval_cg_tolerance(1e-13), \
+                            gpytorch.settings.max_cg_iterations(300), gpytorch.settings.num_contour_quadrature(30), \
+                            gpytorch.settings.ciq_samples(False), warnings.catch_warnings():
+                        warnings.simplefilter("ignore")
+                        out = model(X)
+                        kl = vs.kl_divergence().sum()
+                    return (w * out.mean).sum() + (v * out.variance).sum(), kl
+                try:
+                    ngd = bool(getattr(vs, "_ngd", lambda: False)())
+                    set_params(mu, Sig)
+                    L_, kl_ = loss()
+                    model.zero_grad()
+                    (L_ + c * kl_).backward()
+                    got = {k_: (torch.zeros_like(p_) if p_.grad is None else p_.grad.clone()) for k_, p_ in dist.named_parameters()}
+                    now = {k_: p_.detach().clone() for k_, p_ in dist.named_parameters()}
+                except Exception as e:
+                    msg = str(e)
+                    if isinstance(e, (NotImplementedError, AttributeError, TypeError)) or "not support" in msg:
+                        ctx.count("pair_rejected")          # the pair is refused: allowed
+                        continue
+                    ctx.fail(f"{sname}×{dname}/raises", f"{sname} with {dname}: loss / backward raises {type(e).__name__}: {msg[:200]}",
+                             payload)
+                    continue
+                natural = "Natural" in dname
+                h = 1e-5
+
+                def value(mu_=None, Sig_=None):
+                    with torch.no_grad():
+                        if mu_ is not None:
+                            set_params(mu_, Sig_)
+                        L2, kl2 = loss()
+                        if ngd:     # the forward of the NGD route does not compute the KL term
+                            d_ = vs._variational_distribution()
+                            m_, S_ = d_.mean, d_.covariance_matrix
+                            kl2 = 0.5 * (-torch.logdet(S_) + S_.diagonal().sum() + m_ @ m_ - n)
+                        return float(L2 + c * kl2)
+                ctx.count("pair_natural" if natural else "pair_ordinary")
+                try:
+                    if natural:
+                        e1, e2 = mu.clone(), Sig + torch.outer(mu, mu)
+
+                        def at(a, B_):
+                            return value(a, B_ - torch.outer(a, a))
+                        g1, G = torch.zeros(n, dtype=torch.float64), torch.zeros(n, n, dtype=torch.float64)
+                        for i in range(n):
+                            e = torch.zeros(n, dtype=torch.float64)
+                            e[i] = h
+                            g1[i] = (at(e1 + e, e2) - at(e1 - e, e2)) / (2 * h)
+                            for j in range(i + 1):
+                                E = torch.zeros(n, n, dtype=torch.float64)
+                                E[i, j] += h / 2
+                                E[j, i] += h / 2
+                                G[i, j] = G[j, i] = (at(e1, e2 + E) - at(e1, e2 - E)) / (2 * h)
+                        want = {"natural_vec": g1}
+                        if dname == "NaturalVariationalDistribution":
+                            want["natural_mat"] = G
+                            got["natural_mat"] = 0.5 * (got["natural_mat"] + got["natural_mat"].T)
+                        else:
+                            T = now["natural_tril_mat"]
+                            Lm = torch.linalg.inv(T)
+                            want["natural_tril_mat"] = phi(-2.0 * Lm.T @ G @ Lm) @ T
+                        rule = "the gradient w.r.t. the expectation parameters (natural gradient" + \
+                            ("; for natural_tril_mat the tangent Φ(−2·LᵀGL)·T)" if "Tril" in dname else ")")
+                    else:
+                        want = {}
+                        for k_, p_ in dist.named_parameters():
+                            gfd = torch.zeros_like(p_)
+                            flat = gfd.view(-1)
+                            for idx in range(p_.numel()):
+                                if k_ == "chol_variational_covar" and (idx // n) < (idx % n):
+                                    flat[idx] = got[k_].view(-1)[idx]        # strictly-upper entries are masked by the forward
+                                    continue
+                                with torch.no_grad():
+                                    p_.view(-1)[idx] += h
+                                fp = value()
+                                with torch.no_grad():
+                                    p_.view(-1)[idx] -= 2 * h
+                                fm = value()
+                                with torch.no_grad():
+                                    p_.view(-1)[idx] += h
+                                flat[idx] = (fp - fm) / (2 * h)
+                            want[k_] = gfd
+                        rule = "the ordinary gradient (central differences in the parameter)"
+                except Exception as e:
+                    ctx.fail(f"{sname}×{dname}/raises", f"{sname} with {dname}: forward at a perturbed parameter raises "
+                             f"{type(e).__name__}: {str(e)[:200]}", payload)
+                    continue
+                for k_, wv in want.items():
+                    sc = max(1.0, float(wv.abs().max()))
+                    if got[k_].shape != wv.shape or float((got[k_] - wv).abs().max()) > 1e-5 * sc:
+                        ctx.fail(f"{sname}×{dname}/{k_}.grad",
+                                 f"{sname} with {dname}" + (" (natural-gradient route)" if ngd else "") + f": {k_}.grad is "
+                                 f"{got[k_].reshape(-1).tolist()}, the parameterisation prescribes {rule}: {wv.reshape(-1).tolist()}", payload)
+                        break
+
+
+def memory_layouts(ctx, rng, deep=False):
+    """Memory layout is part of "for all inputs": every hand-written Function is fed dense non-contiguous (transposed /
+    permuted), strided (every second element of a larger buffer) and expanded (stride 0) views of its inputs and of its
+    cotangents.  The gradient must be the one obtained for contiguous copies of the same values (which the other streams
+    tie to the closed forms; LogNormalCDF is also compared with mpmath here)."""
+    import numpy as np
+    import torch
+    import mpmath
+    import gpytorch
+    from gpytorch.functions import MaternCovariance, RBFCovariance, log_normal_cdf
+    from gpytorch.kernels.kernel import dist, sq_dist
+    from gpytorch.variational.natural_variational_distribution import _NaturalToMuVarSqrt
+    from gpytorch.variational.tril_natural_variational_distribution import _TrilNaturalToMuVarSqrt
+    from gpytorch.variational.ciq_variational_strategy import _NgdInterpTerms
+    reps = (2 if ctx.quick else 12) * (2 if deep else 1)
+
+    def lay(t, kind):
+        """a view with the values of t in another memory layout"""
+        if kind == "contiguous" or t.dim() == 0:
+            return t.clone()
+        if kind == "transposed":
+            if t.dim() < 2:
+                kind = "strided"
+            else:
+                perm = list(range(t.dim()))[::-1]
+                inv = [perm.index(i) for i in range(t.dim())]
+                return t.permute(perm).contiguous().permute(inv)
+        if kind == "strided":
+            big = torch.zeros(*t.shape[:-1], 2 * t.shape[-1], dtype=t.dtype)
+            big[..., ::2] = t
+            return big[..., ::2]
+        raise ValueError(kind)
+
+    def compare(key, what, payload, run, kinds_in, kinds_go, rtol=1e-10):
+        base = run("contiguous", "contiguous")
+        for ki in kinds_in:
+            for kg in kinds_go:
+                if ki == kg == "contiguous":
+                    continue
+                ctx.case({"layout": [key, ki, kg, payload["id"]]}, sample={"function": key, "inputs": ki, "cotangents": kg})
+                ctx.count("layout_cases")
+                try:
+                    with warnings.catch_warnings():
+                        warnings.simplefilter("ignore")
+                        got = run(ki, kg)
+                except Exception as e:
+                    ctx.fail(f"{key}/layout/raises", f"{what}: inputs {ki}, cotangents {kg}: raises {type(e).__name__}: {str(e)[:200]}",
+                             dict(payload, inputs=ki, cotangents=kg))
+                    continue
+                for a, r_ in zip(got, base):
+                    sc = max(1.0, float(np.abs(r_).max()))
+                    if a.shape != r_.shape or not np.allclose(a, r_, rtol=rtol, atol=1e-12 * sc):
+                        ctx.fail(f"{key}.backward/memory-layout",
+                                 f"{what}: with {ki} inputs and {kg} cotangents the gradient is {np.asarray(a).reshape(-1).tolist()[:12]}, "
+                                 f"with contiguous copies of the same values {np.asarray(r_).reshape(-1).tolist()[:12]}",
+                                 dict(payload, inputs=ki, cotangents=kg))
+                        break
+        return base
+    KI = ("contiguous", "transposed", "strided")
+    for rep in range(reps):
+        # ---- LogNormalCDF: 2-d and 3-d arguments; also the expanded cotangent of `.sum().backward()`
+        for shape in ((3, 4), (2, 3, 2), (5,), (4, 1), (1, 3), (2, 2, 1, 2)):
+          zs = np.array([rng.uniform(-6, 3) for _ in range(int(np.prod(shape)))]).reshape(shape)
+          gos = np.array([rng.uniform(0.5, 2.0) * rng.choice([-1, 1]) for _ in range(zs.size)]).reshape(shape)
+          pl = {"id": [rep, list(shape)], "function": "LogNormalCDF", "z": zs.tolist(), "grad_output": gos.tolist()}
+
+          def run_l(ki, kg, expanded=False):
+              leaf = _t(zs.tolist(), requires_grad=True)
+              zv = lay(leaf, ki) if ki != "contiguous" else leaf * 1.0
+              out = log_normal_cdf(zv)
+              go = torch.ones((), dtype=torch.float64).expand(out.shape) if expanded else lay(_t(gos.tolist()), kg)
+              return [torch.autograd.grad(out, leaf, grad_outputs=go)[0].numpy()]
+          base = compare("LogNormalCDF", "LogNormalCDF", pl, run_l, KI, KI)
+          mpmath.mp.dps = 30
+          ref = np.array([float(mpmath.npdf(z_) / mpmath.ncdf(z_)) for z_ in zs.reshape(-1)]).reshape(shape) * gos
+          for ki in KI:
+              for expd in (False, True):
+                  g = run_l(ki, "transposed", expd)[0]
+                  r_ = ref / gos if expd else ref
+                  if not np.allclose(g, r_, rtol=2e-3, atol=1e-9):
+                      ctx.fail("LogNormalCDF.backward/memory-layout", f"LogNormalCDF with a {ki} argument" +
+                               (" and the expanded cotangent of .sum()" if expd else "") + f": gradient {g.reshape(-1).tolist()[:8]}, "
+                               f"φ/Φ·grad_output = {r_.reshape(-1).tolist()[:8]}", dict(pl, inputs=ki, expanded_cotangent=expd))
+                      break
+        # ---- RBFCovariance / MaternCovariance
+        d = rng.randint(1, 3)
+        n1, n2 = rng.sample([x for x in (2, 3, 4, 5) if x != d], 2)
+        x1, x2, ell = K5.rand_x(rng, n1, d), K5.rand_x(rng, n2, d), K5.logu(rng, 0.4, 2.5)
+        gk = K5.rand_x(rng, n1, n2)
+        for fam, nu2 in (("rbf", None), ("matern", 1), ("matern", 3), ("matern", 5)):
+            name = "RBFCovariance" if fam == "rbf" else f"MaternCovariance(nu={nu2 / 2})"
+            pl = {"id": rep, "function": name, "x1": x1, "x2": x2, "ell": ell, "grad_output": gk}
+
+            def run_k(ki, kg):
+                leaf = _t([[ell]], requires_grad=True)
+                X1, X2, go = lay(_t(x1), ki), lay(_t(x2), ki), lay(_t(gk), kg)
+                if fam == "rbf":
+                    K = RBFCovariance.apply(X1, X2, leaf * 1.0, lambda a, b: sq_dist(a, b, False))
+                else:
+                    K = MaternCovariance.apply(X1, X2, leaf * 1.0, nu2 / 2.0, lambda a, b: dist(a, b, False))
+                return [torch.autograd.grad(K, leaf, grad_outputs=go)[0].numpy()]
+            compare(name, name, pl, run_k, KI, KI, rtol=1e-9)
+        # ---- natural / tril-natural / CIQ Functions
+        n = rng.randint(2, 4)
+        Sig, mu = _rand_spd(rng, n), _t([rng.gauss(0, 1) for _ in range(n)])
+        prec = torch.linalg.inv(Sig)
+        prec = 0.5 * (prec + prec.T)
+        gmu = [rng.gauss(0, 1) for _ in range(n)]
+        gL = torch.tril(_t([[rng.gauss(0, 1) for _ in range(n)] for _ in range(n)])).tolist()
+        cond = float(torch.linalg.cond(Sig))
+        for fn_name in ("_NaturalToMuVarSqrt", "_TrilNaturalToMuVarSqrt"):
+            F = _NaturalToMuVarSqrt if fn_name == "_NaturalToMuVarSqrt" else _TrilNaturalToMuVarSqrt
+            second = -0.5 * prec if fn_name == "_NaturalToMuVarSqrt" else torch.tril(torch.linalg.inv(torch.linalg.cholesky(Sig)))
+            pl = {"id": rep, "function": fn_name, "Sigma": Sig.tolist(), "mu": mu.tolist(), "dout_dmu": gmu, "dout_dL": gL}
+
+            def run_n(ki, kg):
+                l1, l2 = (prec @ mu).clone().requires_grad_(True), second.clone().requires_grad_(True)
+                a, c_ = (lay(l1, ki), lay(l2, ki)) if ki != "contiguous" else (l1 * 1.0, l2 * 1.0)
+                mo, Lo = F.apply(a, c_)
+                return [g.numpy() for g in torch.autograd.grad([mo, Lo], [l1, l2], grad_outputs=[lay(_t(gmu), kg), lay(_t(gL), kg)])]
+            compare(fn_name, fn_name, pl, run_n, KI, KI, rtol=1e-9 * cond)
+        nb = rng.randint(1, 3)
+        kk = K5.rand_x(rng, n, nb)
+        gm, gv, gk_ = [rng.gauss(0, 1) for _ in range(nb)], [rng.gauss(0, 1) for _ in range(nb)], rng.gauss(0, 1)
+        pl = {"id": rep, "function": "_NgdInterpTerms", "S": Sig.tolist(), "m": mu.tolist(), "k": kk, "gm": gm, "gv": gv, "gk": gk_}
+
+        def run_c(ki, kg):
+            li, lv, lm = _t(kk, requires_grad=True), (prec @ mu).clone().requires_grad_(True), (-0.5 * prec).clone().requires_grad_(True)
+            ti, tv, tm = (lay(li, ki), lay(lv, ki), lay(lm, ki)) if ki != "contiguous" else (li * 1.0, lv * 1.0, lm * 1.0)
+            with gpytorch.settings.cg_tolerance(1e-13), gpytorch.settings.eval_cg_tolerance(1e-13), \
+                    gpytorch.settings.max_cg_iterations(200):
+                im, iv, kl = _NgdInterpTerms.apply(ti, tv, tm)
+                return [g.numpy() for g in torch.autograd.grad([im, iv, kl], [li, lv, lm],
+                                                               grad_outputs=[lay(_t(gm), kg), lay(_t(gv), kg), _t(gk_)])]
+        compare("_NgdInterpTerms", "_NgdInterpTerms", pl, run_c, KI, KI, rtol=1e-7 * cond)
+
+
 # ------------------------------------------------------------------------------------------- predictions
 
 def prediction_gradients(ctx, rng):
@@ -1217,6 +1638,9 @@ def correspondence(ctx):
     prediction_gradients(ctx, ctx.rng("pred"))
     input_gradients(ctx, ctx.rng("inputgrad"))
     output_inplace(ctx, ctx.rng("inplace"))
+    public_call_forms(ctx, ctx.rng("callforms"))
+    strategy_distribution_pairs(ctx, ctx.rng("pairs"))
+    memory_layouts(ctx, ctx.rng("layouts"))
     lncdf(ctx, ctx.rng("lncdf"))
     q.run()
     ctx.count("driver_lines", len(q.k.lines) + len(q.l.lines))
@@ -1240,6 +1664,12 @@ def search(ctx, broken):
         prediction_gradients(ctx, ctx.rng("search-pred"))
     if not ctx.failures:
         output_inplace(ctx, ctx.rng("search-inplace"), deep=True)
+    if not ctx.failures:
+        public_call_forms(ctx, ctx.rng("search-callforms"), deep=True)
+    if not ctx.failures:
+        memory_layouts(ctx, ctx.rng("search-layouts"), deep=True)
+    if not ctx.failures:
+        strategy_distribution_pairs(ctx, ctx.rng("search-pairs"), deep=True)
 
 
 def replay(ctx, payload):
